@@ -29,6 +29,11 @@ type ReplayFile struct {
 }
 
 func hasReplacements(h Harness, ph *PkgHarness) bool {
+	// a symbolic clock is an environment stub too: the compiled harness reads the machine's clock,
+	// so a counterexample that depends on clock readings only reproduces in the interpreter
+	if h.opt("quick", "symclock", "") != "" {
+		return true
+	}
 	envs := map[string]bool{}
 	for _, e := range h.Env {
 		envs[e] = true
